@@ -150,11 +150,13 @@ Definition dyf0 (x : float) : dy := match dyf x with Some d => d | None => d0 en
 Definition lmx_of (a : list (list float)) : lmx := map (map dyf0) a.
 Definition lomx_of (a : list (list float)) : lomx := map (map dyf) a.
 
-(* |a - b| <= tol * (1 + |b|) *)
-Definition dclose (tol a b : dy) : bool := dleb (dabs (dsub a b)) (dmul tol (dadd d1 (dabs b))).
-Definition oclose (tol : dy) (a b : option dy) : bool :=
+(* |a - b| <= tol * (s + |b|): s is the magnitude of the problem (largest variance of a shock), so that the
+   comparison stays meaningful when every standard deviation is tiny *)
+Definition dclose_s (tol s a b : dy) : bool := dleb (dabs (dsub a b)) (dmul tol (dadd s (dabs b))).
+Definition dclose (tol a b : dy) : bool := dclose_s tol d1 a b.
+Definition oclose_s (tol s : dy) (a b : option dy) : bool :=
   match a, b with
-  | Some x, Some y => dclose tol x y
+  | Some x, Some y => dclose_s tol s x y
   | None, None => true
   | _, _ => false
   end.
@@ -164,9 +166,11 @@ Fixpoint all2 {T U} (f : T -> U -> bool) (a : list T) (b : list U) : bool :=
   | x :: xs, y :: ys => f x y && all2 f xs ys
   | _, _ => false
   end.
-Definition lmx_close (tol : dy) (a b : lmx) : bool := all2 (all2 (dclose tol)) a b.
-Definition lomx_close (tol : dy) (a b : lomx) : bool := all2 (all2 (oclose tol)) a b.
-Definition lomx_list_close (tol : dy) (a b : list lomx) : bool := all2 (lomx_close tol) a b.
+Definition lmx_close_s (tol s : dy) (a b : lmx) : bool := all2 (all2 (dclose_s tol s)) a b.
+Definition lomx_close_s (tol s : dy) (a b : lomx) : bool := all2 (all2 (oclose_s tol s)) a b.
+Definition lomx_list_close_s (tol s : dy) (a b : list lomx) : bool := all2 (lomx_close_s tol s) a b.
+Definition lmx_close (tol : dy) := lmx_close_s tol d1.
+Definition lomx_list_close (tol : dy) := lomx_list_close_s tol d1.
 
 (* codes of the cases that fail: (index, code) *)
 Fixpoint failing_codes (l : list nat) (i : nat) : list (nat * nat) :=
